@@ -76,6 +76,22 @@ def obs_opaque(case):
     return ev
 
 
+def obs_text(case):
+    """variable-length text (CH) and fixed character fields: bytes -> value -> bytes must be the identity on ASCII text, whatever
+    the text looks like (backslashes, escape-like sequences, quotes ...)"""
+    from pyubx2 import bytes2val, val2bytes
+
+    t, b = case["t"], bytes.fromhex(case["b"])
+    ev = {"kind": "opaque", "t": t, "w": len(b), "bytes": list(b), "out": "", "bytes2": [], "nan": 0}
+    try:
+        v = bytes2val(b, t)
+        ev["bytes2"] = list(val2bytes(v, t))
+        ev["out"] = "ok"
+    except Exception as ex:  # noqa: BLE001
+        ev["out"] = type(ex).__name__
+    return ev
+
+
 def obs_nom(case):
     from pyubx2 import nomval, val2bytes
 
@@ -112,6 +128,14 @@ def obs_time(case):
     from pyubx2 import itow2utc, utc2itow
 
     days, sod, ms = case["days"], case["sod"], case["ms"]
+    # the conversions are about UTC: the time zone of the process must not matter (rotated here; POSIX TZ strings need no database)
+    import os
+    import time as _time
+
+    tz = ("UTC0", "CET-1CEST,M3.5.0,M10.5.0/3", "EST5EDT,M3.2.0,M11.1.0", "NPT-5:45")[(days + sod) % 4]
+    if os.environ.get("TZ") != tz and hasattr(_time, "tzset"):
+        os.environ["TZ"] = tz
+        _time.tzset()
     utc = E0 + timedelta(days=days, seconds=sod, milliseconds=ms)
     wno, itow = utc2itow(utc)
     t1 = itow2utc(case["itowin"])
@@ -162,7 +186,7 @@ def obs_sphp2(case):
     return {"kind": "sphp2", "M": M, "sp": int(sp), "hp": int(hp)}
 
 
-OBSERVERS = {"sphp2": obs_sphp2, "int": obs_int, "dec": obs_dec, "opaque": obs_opaque, "nom": obs_nom, "ck": obs_ck, "time": obs_time, "bits": obs_bits,
+OBSERVERS = {"text": obs_text, "sphp2": obs_sphp2, "int": obs_int, "dec": obs_dec, "opaque": obs_opaque, "nom": obs_nom, "ck": obs_ck, "time": obs_time, "bits": obs_bits,
              "att": obs_att, "sphp": obs_sphp}
 
 
